@@ -9,7 +9,9 @@ EXPECT = {
     # property -> [(description, rule function runner, predicate on violated keys)]
     "C06": [("ambient nondeterminism (std::time)", "ambient", lambda ks: any(k.startswith("ambient/") and "SystemTime" in k for k in ks)),
             ("hash order reaching a returned Vec", "hash_order", lambda ks: any(k.startswith("hash-site/scale_typegen::control_hash_order") for k in ks)),
-            ("hash-ordered loop with a loop-carried counter", "hash_order", lambda ks: any(k.startswith("hash-site/scale_typegen::control_hash_loop") for k in ks))],
+            ("hash-ordered loop with a loop-carried counter", "hash_order", lambda ks: any(k.startswith("hash-site/scale_typegen::control_hash_loop") for k in ks)),
+            ("hash-ordered loop steered by a `seen` set", "hash_order", lambda ks: any(k.startswith("hash-site/scale_typegen::control_hash_seen_set") for k in ks)),
+            ("set-compared list post-processed by position", "hash_order", lambda ks: any(k.startswith("set-compared-list/") for k in ks))],
     "C17": [("id compared for order / used in arithmetic", "id_opacity", lambda ks: any(k.startswith("id-opacity/arith-or-order/scale_typegen::control_id_opacity") for k in ks)),
             ("identifier built from an id", "id_opacity", lambda ks: any(k.startswith("id-opacity/ident/") for k in ks)),
             ("id interpolated into tokens", "id_opacity", lambda ks: any(k.startswith("id-opacity/token/") for k in ks)),
